@@ -136,10 +136,18 @@ def run_config(res, pid, tier, seed, config, binp, info, workdir, extra_cases=No
     """generate cases for one configuration, execute them on the real code (native runner by default,
     or `executor(cases, tag) -> (outs, crashed)`), on the Lean model, evaluate both verdict layers"""
     label = label or config
-    r = random.Random((seed * 1000003) ^ hash_str(label + (cpu or "")))
     g = gen_override or P.PROPS[pid]["gen"]
-    bs = list(extra_cases or []) + g(r, tier, info)
-    cases = [b.case() for b in bs]
+    # the model's behaviour (and the generator) depend on the configuration only through this class, so
+    # configurations of one class share their cases and ONE model run; the real code runs in each
+    klass = tuple(info.get(k, "") for k in ("arch", "std", "tf_sse41", "tf_avx2", "simd128", "cpu_sse41", "cpu_avx2"))
+    ckey = (pid, getattr(g, "__name__", "g"), tier, seed, klass, label if (executor or skip_model) else "")
+    cached = MODEL_CACHE.get(ckey)
+    r = random.Random((seed * 1000003) ^ hash_str("|".join(klass) + (label if (executor or skip_model) else "")))
+    if cached:
+        bs, cases = cached[0], cached[1]
+    else:
+        bs = list(extra_cases or []) + g(r, tier, info)
+        cases = [b.case() for b in bs]
     tag = f"{pid}.{label}" + (f".{cpu}" if cpu else "")
     cfgline = info["_line"]
     if executor:
@@ -149,9 +157,16 @@ def run_config(res, pid, tier, seed, config, binp, info, workdir, extra_cases=No
         reals, crashed = hh.run_real(binp, cases, workdir, tag, extra_args=extra)
     if skip_model:
         models, mbad = list(reals), []      # search mode: only the property's own oracles are evaluated
+    elif cached:
+        models, mbad = cached[2], []
     else:
         models, mbad = hh.run_model(cases, workdir, tag, cfgline)
+        if not mbad:
+            MODEL_CACHE[ckey] = (bs, cases, models)
     return evaluate(res, pid, label, cpu, cfgline, bs, cases, reals, models, crashed, mbad, info, workdir, tag, r)
+
+
+MODEL_CACHE = {}
 
 
 def evaluate(res, pid, config, cpu, cfgline, bs, cases, reals, models, crashed, mbad, info, workdir, tag, r):
